@@ -81,7 +81,7 @@ Local Open Scope string_scope.
 Local Open Scope Z_scope.
 
 Ltac step := cbn [exec eval lift seq rbind assign lookup update bind_tuple items String.eqb Ascii.eqb Bool.eqb
-  binop_vals cmp_vals truthy builtin1_val builtin2_val index_val mixes_bool val_eqb listZ_eqb andb negb slice_val opt_int].
+  binop_vals binop_scalar cmp_vals cmp_scalar is_arr orb truthy builtin1_val builtin2_val index_val mixes_bool val_eqb listZ_eqb andb negb slice_val opt_int].
 
 Definition denv (N : val) (b : Z) (q : list Z) (r : Z) (tail : env) : env :=
   ("number", N) :: ("base", VStr [dchr b]) :: ("new_number", VList (map VInt q)) :: ("remainder", VInt r) :: tail.
